@@ -108,6 +108,14 @@ def c04_check_code(w, inp, k):
             else 'ASYNC_GENERATOR' if inspect.isasyncgenfunction(fn) else None)
     if d.type.type != kind:
         w.violation('C04:function-kind-differs', inp, dict(det, cpython=kind, decoded=d.type.type))
+    # the answer must not depend on what was done with the data in between: encode it, then ask again, and ask a
+    # freshly decoded value as well (seeded change C04-r3: a memo shared with the encoder, which reorders it in place)
+    try_(d.to_code)
+    again = [(n, kd.name) for n, kd in d.type.args.parameters.items()]
+    d2, e2 = try_(CodeData.from_code, k)
+    fresh = [(n, kd.name) for n, kd in d2.type.args.parameters.items()] if e2 is None and d2.type is not None else None
+    if again != want or fresh != want or len(d.type.args) != len(want):
+        w.violation('C04:signature-differs-after-to_code', inp, dict(det, cpython=want, after_to_code=again, decoded_again=fresh))
     # the independent reading of the header: counts and flags
     a = d.type.args
     if (len(a.positional_only), len(a.positional_only) + len(a.positional_or_keyword), len(a.keyword_only),
